@@ -153,9 +153,10 @@ CLAIMED = {
             'returns the original path, and that find_meta_for / find_events_for / find_table_sibling_of / find_mri_sibling_of change exactly '
             'the requested entities - for ALL values of the grammar, not for sample names; MNE file names likewise. Numeric part: '
             'SpmGlm.spm_filter proved equal to Y - X0(X0\'Y) per run on symbolic data and filter bases; dataset_from_epochs on a mock epochs '
-            'object with symbolic data.',
+            'object with symbolic data; make_design_matrix: columns, confound flags, dof and the centred range-normalised confound columns '
+            'with symbolic confound values (columns with missing values dropped).',
             'POSIX path model (normpath/basename/join) is a stub; file contents (.mat/.json/.fif via scipy.io, json, mne), Meadows file names '
-            '(pet-name table, isdigit) and make_design_matrix (pandas, pchip, numpy.convolve) are outside; find_mri_derivative_files (glob) outside'),
+            '(pet-name table, isdigit) are outside; the HRF-convolved condition columns of make_design_matrix are concrete (pchip, numpy.convolve not modelled); find_mri_derivative_files (glob) outside'),
     'C15': ('DESIGN.md 4/C15',
             'cengine/similarity.pyx is transpiled on every run into bounds-checked Python (types stripped, PyMem_Malloc/cvarray -> checked '
             'buffers, dgemv modelled column-major, `/` with C semantics) - the transpiler is validated against the shipped .so - and '
